@@ -56,14 +56,14 @@ type Sched struct {
 }
 
 type timerEv struct {
-	at      int64 // virtual ns since path start
-	seq     int
-	ch      *ChanObj
-	fn      func()
-	active  bool
-	period  int64
-	loc     *StructLoc
-	vc      vclock // race mode: clock of the goroutine that armed the timer
+	at     int64 // virtual ns since path start
+	seq    int
+	ch     *ChanObj
+	fn     func()
+	active bool
+	period int64
+	loc    *StructLoc
+	vc     vclock // race mode: clock of the goroutine that armed the timer
 }
 
 type ChanObj struct {
